@@ -130,6 +130,19 @@ def known_sig(t, l, clause):
         unfinished = [x for x in o['tk'] if x['state'] not in ('SUCCESS', 'ERROR', 'CANCELLED', 'SKIPPED')]
         out['unfinished_are_joins_waiting_since_the_finished_execution_was_rerun'] = bool(unfinished) and bool(root_before) and \
             root_before[0]['state'] in ('ERROR', 'CANCELLED') and all(x['state'] == 'WAITING' and x['sid'] in was_waiting for x in unfinished)
+    if ck in ('Prescribed', 'NoHang', 'RerunRestores') and rr_all:
+        # a rerun issued while the execution is still RUNNING - the failed task's deferred completion check has not run yet; that
+        # check then fails the execution before the task's new start is delivered
+        stale = False
+        for k0 in rr_all:
+            tgt = t['steps'][k0]['ev'].get('t', '')
+            for st in t['steps'][k0 + 1:l]:
+                e_ = st['ev']
+                if e_['kind'] == 'msg' and e_['what'] == 'start_task' and e_.get('t') == tgt and not e_.get('fr', True):
+                    break
+                if e_['what'] == 'check' and any(wr['kind'] == 'wf' and wr['sid'] == 'r' and wr['frm'] == 'RUNNING' and wr['to'] == 'ERROR' for wr in e_.get('writes', [])):
+                    stale = True
+        out['stale_completion_check_failed_the_execution_after_rerun'] = stale
     noreset = [k for k, st in enumerate(t['steps'][:l]) if st['ev']['kind'] == 'op' and st['ev']['what'] == 'rerun' and st['ev'].get('arg') == 'noreset']
     if ck in ('NoHang', 'NoWaitingAtRest', 'NoStuckTaskAtRest', 'Prescribed') and noreset:
         o = t['steps'][l - 1]['obs']
